@@ -13,6 +13,7 @@ alignment is found the function is analysed as written.
 from __future__ import annotations
 
 import ast
+import copy
 import difflib
 import json
 from pathlib import Path
@@ -785,3 +786,112 @@ def inline_new_helpers(tree, rel):
     if done:
         _SpliceStar().visit(tree)
     return done
+
+
+# ---------------------------------------------------------------------------------------------------------
+# `match` statements whose patterns are literals, constants, wildcards, alternatives of those or fixed-length sequences
+# of those are if/elif chains (PEP 634: value patterns compare with ==, True/False/None by identity, the first matching
+# case wins, no case matching does nothing).  They are written as such before any rule runs, so that every rule and
+# engine sees the branch structure it already understands.  A statement with any other pattern (class patterns, mapping
+# patterns, star patterns, captures used by a guard) is left untouched and stays an unmodelled construct.
+def _match_test(pat, subj):
+    """test expression for `subj` matching `pat`, the list of (name, expr) captures, or None if the pattern is not simple"""
+    if isinstance(pat, ast.MatchValue):
+        return ast.Compare(left=subj, ops=[ast.Eq()], comparators=[pat.value]), []
+    if isinstance(pat, ast.MatchSingleton):
+        return ast.Compare(left=subj, ops=[ast.Is()], comparators=[ast.Constant(value=pat.value)]), []
+    if isinstance(pat, ast.MatchAs) and pat.pattern is None:
+        return True, ([] if pat.name is None else [(pat.name, subj)])
+    if isinstance(pat, ast.MatchOr):
+        tests = []
+        for q in pat.patterns:
+            r = _match_test(q, subj)
+            if r is None or r[1]:
+                return None
+            if r[0] is True:
+                return True, []
+            tests.append(r[0])
+        return ast.BoolOp(op=ast.Or(), values=tests), []
+    if isinstance(pat, ast.MatchSequence) and isinstance(subj, ast.Tuple) and len(subj.elts) == len(pat.patterns) \
+            and not any(isinstance(q, ast.MatchStar) for q in pat.patterns):
+        tests, caps = [], []
+        for q, e in zip(pat.patterns, subj.elts):
+            r = _match_test(q, e)
+            if r is None:
+                return None
+            if r[0] is not True:
+                tests.append(r[0])
+            caps += r[1]
+        if not tests:
+            return True, caps
+        return (tests[0] if len(tests) == 1 else ast.BoolOp(op=ast.And(), values=tests)), caps
+    return None
+
+
+_SUBJECT_CALLS = {"bool", "str", "hasattr", "isinstance", "getattr", "type", "callable"}
+
+
+def _pure_subject(e):
+    """the subject may be written once per test: it reads but does not change anything"""
+    for n in ast.walk(e):
+        if isinstance(n, ast.Call) and isinstance(n.func, ast.Name) and n.func.id in _SUBJECT_CALLS and not n.keywords:
+            continue
+        if isinstance(n, ast.Call):
+            f = n.func
+            root = f
+            while isinstance(root, ast.Attribute):
+                root = root.value
+            pure_method = isinstance(f, ast.Attribute) and f.attr in PURE_METHODS
+            if not (isinstance(root, ast.Name) and root.id in PURE_CALL_ROOTS) and not pure_method:
+                return False
+        elif isinstance(n, (ast.Lambda, ast.ListComp, ast.GeneratorExp, ast.DictComp, ast.SetComp, ast.Yield, ast.Await, ast.NamedExpr,
+                            ast.Starred)):
+            return False
+    return True
+
+
+class _LowerMatch(ast.NodeTransformer):
+    def __init__(self):
+        self.count = 0
+
+    def visit_Match(self, node):
+        self.generic_visit(node)
+        subj = node.subject
+        if not _pure_subject(subj):
+            return node
+        arms = []
+        for case in node.cases:
+            r = _match_test(case.pattern, subj)
+            if r is None:
+                return node
+            test, caps = r
+            if case.guard is not None:
+                if caps:
+                    return node
+                test = case.guard if test is True else ast.BoolOp(op=ast.And(), values=[test, case.guard])
+            body = [ast.Assign(targets=[ast.Name(id=n, ctx=ast.Store())], value=copy.deepcopy(e), lineno=case.body[0].lineno)
+                    for n, e in caps] + case.body
+            arms.append((test, body))
+        chain = None
+        for test, body in reversed(arms):
+            if test is True:
+                chain = body                      # an irrefutable case: everything after it is unreachable
+            else:
+                chain = [ast.If(test=copy.deepcopy(test), body=body, orelse=chain or [])]
+        if not chain or not any(test is True for test, _ in arms):
+            # without an irrefutable last case "no case matched" is a path of its own whose feasibility depends on the type of
+            # the subject (e.g. two booleans matched exhaustively): not decidable here, the statement stays unmodelled
+            return node
+        self.count += 1
+        out = chain if isinstance(chain, list) else [chain]
+        for st in out:
+            ast.copy_location(st, node)
+        return out
+
+
+def lower_simple_match(tree):
+    t = _LowerMatch()
+    t.visit(tree)
+    if t.count:
+        ast.fix_missing_locations(tree)
+    return t.count
